@@ -1,32 +1,58 @@
 (* C02 — identifiers under concurrency: every schedule of concurrently served
    connections yields pairwise distinct context IDs and one session per
    connection; the batch oracle is exactly that statement. *)
-From Coq Require Import List Bool Arith Lia.
-From Martian.C02 Require Import Model Proofs_Clauses.
+From Coq Require Import List Bool Arith NArith Lia.
+From Martian.C02 Require Import Model.
 Import ListNotations.
 
 Definition Conc_good (obs : list cobs) : Prop :=
   NoDup (map co_ctx obs) /\
   forall a b, In a obs -> In b obs -> (co_conn a = co_conn b <-> co_sess a = co_sess b).
 
-Lemma eqb_eqb_iff x y u v : Bool.eqb (Nat.eqb x y) (Nat.eqb u v) = true <-> (x = y <-> u = v).
+Lemma eqb_eqb_iff x y u v : Bool.eqb (N.eqb x y) (N.eqb u v) = true <-> (x = y <-> u = v).
 Proof.
-  destruct (Nat.eqb x y) eqn:E1; destruct (Nat.eqb u v) eqn:E2; cbn;
-    rewrite ?Nat.eqb_eq, ?Nat.eqb_neq in *; split; try tauto; try discriminate;
+  destruct (N.eqb x y) eqn:E1; destruct (N.eqb u v) eqn:E2; cbn;
+    rewrite ?N.eqb_eq, ?N.eqb_neq in *; split; try tauto; try discriminate;
     intros H; exfalso; tauto.
+Qed.
+
+Lemma nodupN_iff l : nodupN l = true <-> NoDup l.
+Proof.
+  induction l as [|x l IH]; cbn [nodupN].
+  - split; [constructor|reflexivity].
+  - rewrite andb_true_iff, negb_true_iff, IH. split.
+    + intros [Hx Hl]. constructor; [|assumption].
+      intros Hin. assert (existsb (N.eqb x) l = true).
+      { apply existsb_exists. exists x. split; [assumption|apply N.eqb_refl]. }
+      congruence.
+    + intros H. inversion H as [|? ? Hn Hd]; subst. split; [|assumption].
+      destruct (existsb (N.eqb x) l) eqn:E; [|reflexivity].
+      apply existsb_exists in E. destruct E as [y [Hy Hxy]].
+      apply N.eqb_eq in Hxy. subst. contradiction.
 Qed.
 
 Theorem conc_ok_iff obs : conc_ok obs = true <-> Conc_good obs.
 Proof.
-  unfold conc_ok, Conc_good. rewrite andb_true_iff, nodupb_iff, forallb_forall.
+  unfold conc_ok, Conc_good. rewrite andb_true_iff, nodupN_iff, forallb_forall.
   split; intros [H1 H2]; (split; [exact H1|]).
   - intros a b Ha Hb. specialize (H2 a Ha). rewrite forallb_forall in H2.
     apply eqb_eqb_iff, H2, Hb.
   - intros a Ha. apply forallb_forall. intros b Hb. apply eqb_eqb_iff, H2; assumption.
 Qed.
 
-Lemma conc_run_ctxs : forall sched next, map co_ctx (conc_run next sched) = seq next (length sched).
-Proof. induction sched as [|k r IH]; intros next; cbn; [reflexivity|]. rewrite IH. reflexivity. Qed.
+Lemma conc_run_ctx_ge : forall sched next o, In o (conc_run next sched) -> (next <= co_ctx o)%N.
+Proof.
+  induction sched as [|k r IH]; intros next o Hin; [destruct Hin|].
+  destruct Hin as [<-|Hin]; [cbn; lia|]. specialize (IH _ _ Hin). lia.
+Qed.
+
+Lemma conc_run_nodup : forall sched next, NoDup (map co_ctx (conc_run next sched)).
+Proof.
+  induction sched as [|k r IH]; intros next; cbn; [constructor|].
+  constructor; [|apply IH].
+  intros Hin. apply in_map_iff in Hin. destruct Hin as [o [Ho Hin]].
+  pose proof (conc_run_ctx_ge _ _ _ Hin). lia.
+Qed.
 
 Lemma conc_run_sess : forall sched next o, In o (conc_run next sched) -> co_sess o = co_conn o.
 Proof.
@@ -38,7 +64,7 @@ Qed.
 Theorem conc_model_good : forall sched next, Conc_good (conc_run next sched).
 Proof.
   intros sched next. split.
-  - rewrite conc_run_ctxs. apply seq_NoDup.
+  - apply conc_run_nodup.
   - intros a b Ha Hb. rewrite (conc_run_sess _ _ _ Ha), (conc_run_sess _ _ _ Hb). tauto.
 Qed.
 
